@@ -45,7 +45,8 @@ def out_of(elem):
 
 
 class Controller:
-    def __init__(self, elems, threads, chunksize, priority, raising=(), stable_s=0.15, stuck_s=8.0, exc='Boom'):
+    def __init__(self, elems, threads, chunksize, priority, raising=(), stable_s=0.15, stuck_s=8.0, exc='Boom',
+                 returning_exc=()):
         self.elems = list(elems)
         self.index = {e: i for i, e in enumerate(self.elems)}
         self.n = n = len(self.elems)
@@ -54,6 +55,8 @@ class Controller:
         self.priority = priority  # list: rank of element index (lower = released first among in-flight)
         self.raising = set(raising)
         self.exc_cls = EXC[exc]
+        self.returning_exc = set(returning_exc) - self.raising
+        self.returned = {x: ValueError(('returned, not raised', x)) for x in self.returning_exc}
         self.stable_s = stable_s
         self.stuck_s = stuck_s
         self.cv = threading.Condition()
@@ -86,6 +89,8 @@ class Controller:
             self.cv.notify_all()
         if x in self.raising:
             raise self.exc_cls(x)
+        if x in self.returning_exc:
+            return self.returned[x]   # an exception OBJECT handed back as an ordinary value ("safe worker" pattern)
         return out_of(elem)
 
     # controller ------------------------------------------------------------------------------
